@@ -517,6 +517,7 @@ func (c10) Run(plan interface{}, schedSeed uint64, replay []simrt.Choice, lenien
 		}
 		v.Violate("panic", "panic "+CrashSig(c), "%s (%s): the %s panicked: %s\n%s", p.Kind, p.Desc, who, c.Value, c.Stack)
 	}
+	ClientBlocked(v, out, fmt.Sprintf("%s (%s)", p.Kind, p.Desc))
 	if out.Livelock != "" {
 		v.Violate("livelock", "livelock: zero-length read spin ("+p.Subject+")", "%s (%s): %s", p.Kind, p.Desc, out.Livelock)
 	} else if out.Budget {
